@@ -39,9 +39,12 @@ namespace engine
 
             void clear()
             {
+                // reset whole entries: key 0 is a valid key (e.g. the pawn
+                // key of every pawnless position), so a stale value must
+                // not survive behind it
                 for (std::size_t i = 0; i < Size; ++i)
                 {
-                    data_[i].key = 0ULL;
+                    data_[i] = Entry();
                 }
             }
 
